@@ -17,7 +17,7 @@ pub fn def() -> PropDef {
     PropDef {
         id: "C01",
         level: "exploration",
-        profiles: &["checked"],
+        profiles: &["checked", "fast"],
         abort_is_violation: false,
         rule: "differential: every generated input (reference-rendered, layout-rendered, crate-written, mutated, \
                spliced, repo test fixtures, hostile headers and delta codes, arbitrary format-biased bytes) for a generated (parser, literal type, \
